@@ -33,6 +33,10 @@ func genGrowth(seed uint64, thorough bool) *Scenario {
 	for i := 0; i < U; i++ {
 		res := Resource{Host: "a.test", Path: fmt.Sprintf("/r%d/p%%2Fq~z", i), LMBase: 1000}
 		vary := pick(g, "", "X-A", "X-A, X-B", "Accept-Encoding", "*", "X-Tenant")
+		if g.chance(25) {
+			// a query with a raw byte that is not UTF-8 (net/url accepts it): it ends up in every key of the URI
+			res.Query = pick(g, "q={FF}", "n=caf{E9}&x=1", "{C3}{28}")
+		}
 		if purge && vary == "*" {
 			vary = "X-A"
 		}
